@@ -70,6 +70,7 @@ def main():
             if os.path.exists(ev):
                 shutil.copy2(ev, os.path.join(VERIF, "evidence", p + ".json"))
         shutil.rmtree(keep, ignore_errors=True)
+        C.regen()          # the generated tables must describe the unpatched tree again
         C.cargo_build()
     mp = os.path.join(d, "meta.json")
     try:
